@@ -473,7 +473,7 @@ fn normalise(b: &Built, res: &RunResult, raw: bool, hot: &HashSet<i64>) -> (Vec<
         Outcome::Aborted(r) => tail.push(Obj::new("aborted").int("t", 0).int("d", 0).str("why", r).done()),
     }
     for (i, m) in &res.panics {
-        tail.push(Obj::new("panic").int("t", *i as i64 + 1).int("d", 0).str("msg", m).done());
+        tail.push(Obj::new("panic").int("t", *i as i64 + 1).int("d", 0).int("inh", m.starts_with("HANDLER:") as i64).str("msg", m).done());
     }
     fine.extend(tail.iter().cloned());
     abs.extend(tail);
